@@ -1,0 +1,9 @@
+//go:build !verif
+
+package transport
+
+// verifOverrideCerts is only meaningful under the "verif" build tag; call sites
+// are guarded by vt.On and are dead code without it.
+func verifOverrideCerts(_ *Client, leaf, intermediate []byte) ([]byte, []byte) {
+	return leaf, intermediate
+}
